@@ -8,6 +8,26 @@ ROOT = os.path.dirname(os.path.dirname(os.path.abspath(__file__)))
 
 # id -> (category, technique, level text, level note, design ref)
 CHECKS = {
+    'C08': ('exploration',
+            'exhaustive enumeration of short adversarial names + Hypothesis '
+            'names; filesystem-call tracing with confinement (os/builtins/io '
+            'wrapped in-process) and before/after tree fingerprints as oracle',
+            'Every name of <= 2 (quick) / <= 3 (thorough) components over an '
+            '11-element alphabet (empty, ".", "..", NUL, 300 bytes, non-ASCII, '
+            '"~", "*", INBOX, ...) and Hypothesis names beyond are run through '
+            '20 commands covering all 14 mailbox-argument positions, on '
+            'maildir "++", maildir "fs" and dict, with alice and bob '
+            'provisioned and the store five directories deep. maildir: every '
+            'filesystem call made while alice is served is traced; a mutating '
+            'call outside <base>/alice (or rmdir/rename/remove of that '
+            'directory itself) or a listing/read outside it is a violation and '
+            'is refused before it executes; the whole scratch tree outside '
+            'alice\'s store (bob, credential files, bait files) must be '
+            'byte-identical afterwards and bob\'s LIST/LSUB/dumps unchanged. '
+            'Exhaustive for the short names, sampled beyond.',
+            'Python-level filesystem calls only; stat() and interpreter reads '
+            'not flagged.',
+            'DESIGN.md section 3, C08'),
     'C10': ('exploration',
             'Hypothesis-generated command programs compared step by step with '
             'a plain reference model (responses and full probe dumps)',
